@@ -124,7 +124,7 @@ def byte_level_lines(tier, seed):
     for k in range(1, n + 1):
         tuples = list(itertools.product(bs, repeat=k))
         if len(tuples) > 6000:
-            tuples = rnd.sample(tuples, 6000 if tier == 'quick' else 40000)
+            tuples = rnd.sample(tuples, min(len(tuples), 6000 if tier == 'quick' else 40000))
         for tup in tuples:
             data = bytes(tup)
             for mask in range(1 << (k - 1)):
